@@ -12,8 +12,8 @@ class TauLeapGraph : public SimulationAlgorithmGraphBase
     {
     private :
 
-    std::vector<int> mesh_nr; //species quantities
-    std::vector<std::vector<int>> mesh_nd; //species quantities
+    std::vector<long long> mesh_nr; //species quantities
+    std::vector<std::vector<long long>> mesh_nd; //species quantities
 
     void Compute_nevt()
         {
